@@ -1,5 +1,4 @@
 import MV.Lemmas.ActorSysTurns
-import MV.Lemmas.ActorSysLocal
 import MV.Spec.ActorSys
 import MV.Props.C03
 /-!
